@@ -556,8 +556,17 @@ def limits(pid, tier, replay):
             f["code"] = 130
         s["hist"] = [h0]
         return s
-    h2 = dict(fams=[dict(fam="ddvar", spec="Dyndep", K=0, CH=0, mut=teardown), dict(fam="jobs", K=2, CH=1, mut=interrupted_by_command)],
-              limit=60 if q else 300, maxruns=2)
+    def burst(s):
+        """Real binary, -j limit: every running command completes while ninja is stopped, so it finds several finished commands in one
+        poll round and must still count the ones it has not reaped yet."""
+        h0 = s["hist"][0]
+        if h0.get("j", 1) < 2 or len([st for st in s["stmts"] if not st["phony"]]) < 4:
+            return None
+        s["hist"] = [dict(h0, burst=True)]
+        return s
+    h2 = dict(fams=[dict(fam="ddvar", spec="Dyndep", K=0, CH=0, mut=teardown), dict(fam="jobs", K=2, CH=1, mut=interrupted_by_command),
+                    dict(fam="sched", K=4, CH=1, mut=burst)],
+              limit=90 if q else 400, maxruns=2)
     return engine.engine_check(pid, fams, tier, maxruns=24 if tier == "quick" else 400, design=design, impl=True, h2=h2)
 
 
